@@ -2,6 +2,7 @@ package checks
 
 import (
 	"fmt"
+	zlint "github.com/zmap/zlint/v3"
 	"regexp"
 	"strings"
 	"time"
@@ -286,6 +287,23 @@ func c07Solo(c *mon.Ctx) {
 			if fr == nil {
 				c.V("added-lint-not-run|full", fmt.Sprintf("lint %s was registered (wave %d) but the full registry gives no result for it", a.name, wave), a.name, inputs(o), nil)
 				continue
+			}
+			// "the full registry" is also what a nil registry argument and the entry points without a registry
+			// argument mean: they must run the added lint too, with the same verdict
+			for how, run := range map[string]func() (*zlint.ResultSet, any, string){
+				"nil registry argument": func() (*zlint.ResultSet, any, string) { return o.Lint(nil) },
+				"no registry argument":  func() (*zlint.ResultSet, any, string) { return o.LintDefault() },
+			} {
+				rs2, pv2, _ := run()
+				c.R.Count("evaluations", 1)
+				if pv2 != nil || rs2 == nil {
+					continue
+				}
+				if r2 := rs2.Results[a.name]; r2 == nil {
+					c.V("added-lint-not-run|"+how, fmt.Sprintf("lint %s was registered (wave %d); the run with the global registry named explicitly has a result for it, the run with %s has none", a.name, wave, how), a.name, inputs(o), nil)
+				} else if r2.Status != fr.Status || r2.Details != fr.Details {
+					c.V("differs|"+a.name, fmt.Sprintf("added lint %s: global registry %s, %s %s", a.name, fr.Status, how, r2.Status), a.name, inputs(o), nil)
+				}
 			}
 			for label, opts := range map[string]lint.FilterOptions{
 				"include name":   {IncludeNames: []string{a.name}},
